@@ -628,6 +628,104 @@ Definition strategy (v : srv) (choices : list N) (hist : list (list outev)) : li
   | batch :: older => answer_batch v (skipn (length (concat older)) choices) batch
   end.
 
+(* ---- the nick generator: Irc.do43x / Irc._getNextNick ----
+   The registration machine above answers every nick rejection with a NICK
+   (do43x s).  The refinement below adds what _getNextNick really does: it pops
+   the configured alternates (supybot.nick.alternates), and once they are
+   exhausted its first candidate is the configured nick itself -- which
+   `assert newNick != self.nick` refuses (AssertionError, no NICK is sent) --
+   and after that random variants, which are always new.  The nick state lives
+   outside [st]: no other handler reads it; Irc.reset() re-initialises it and a
+   successful do376 reloads the alternates. *)
+Record nk := Nk { alts : nat; tried : bool }.     (* len(alternateNicks); the configured nick is in triedNicks *)
+Definition is43x (m : inmsg) : bool :=
+  match m with INum code _ => N.eqb code 432 || N.eqb code 433 || N.eqb code 437 | _ => false end.
+Definition is376 (m : inmsg) : bool :=
+  match m with INum code _ => N.eqb code 376 || N.eqb code 377 || N.eqb code 422 | _ => false end.
+Definition is_reset_msg (m : inmsg) : bool := match m with IReset => true | _ => false end.
+Definition is_abort (o : outev) : bool := match o with Reconnect _ _ => true | Die => true | _ => false end.
+(* (new nick state, a new nick was found) *)
+Definition next_nick (n : nk) : nk * bool :=
+  match alts n with
+  | S a => (Nk a (tried n), true)
+  | O => if tried n then (n, true) else (Nk 0 true, false)
+  end.
+(* na = the number of configured alternates *)
+Definition stepN (c : cfg) (na : nat) (sn : st * nk) (m : inmsg) : (st * nk) * list outev * option exn :=
+  let '(s, n) := sn in
+  if is43x m then
+    if after s then ((s, n), [], None)
+    else let '(n', ok) := next_nick n in
+         if ok then ((s, n'), [Send s_NICK []], None) else ((s, n'), [], Some AssertionError)
+  else
+    let '(s', o, e) := step c s m in
+    let n' := if existsb is_abort o || is_reset_msg m then Nk na false
+              else if is376 m && after s' && match e with None => true | Some _ => false end then Nk na (tried n)
+              else n in
+    ((s', n'), o, e).
+Fixpoint run_msgsN (c : cfg) (na : nat) (sn : st * nk) (ms : list inmsg) : (st * nk) * list outev :=
+  match ms with
+  | [] => (sn, [])
+  | m :: r => let '(sn1, o1, _) := stepN c na sn m in
+              let '(sn2, o2) := run_msgsN c na sn1 r in (sn2, o1 ++ o2)
+  end.
+
+(* ---- a conformant server that may also reject nicks ----
+   State: rej = rejections it may still make; due = the welcome burst is owed (CAP END / USER was received while
+   the nick was rejected); bad = it rejected the last NICK and has not received another one.
+   At the start of a response it may reject the current nick (432/433/437); it then answers the batch; while the
+   nick is rejected it withholds the welcome burst; a replacement NICK is rejected again or accepted, and the
+   withheld welcome burst follows the accepted one. *)
+Record sst := Sst { rej : nat; due : bool; bad : bool }.
+Definition is_nick_out (o : outev) : bool := match o with Send cmd _ => seq_eqb cmd s_NICK | _ => false end.
+Definition is_trigger (cap : bool) (o : outev) : bool :=
+  match o with
+  | Send cmd args => if cap then seq_eqb cmd s_CAP && match args with sub :: _ => seq_eqb sub s_END | [] => false end
+                     else seq_eqb cmd s_USER
+  | _ => false
+  end.
+Definition rejection : list inmsg := [INum 433 [s_STAR]].
+(* fr: the nick was rejected at the start of this very response (a NICK in the batch is then the rejected one) *)
+Definition answerN (v : srv) (fr : bool) (t : sst) (n : N) (o : outev) : list inmsg * sst :=
+  if is_nick_out o then
+    if fr || negb (bad t) then ([], t)
+    else if N.odd n && Nat.ltb 0 (rej t) then (rejection, Sst (pred (rej t)) (due t) true)
+    else (if due t then welcome (sv_motd v) else [], Sst (rej t) false false)
+  else if is_trigger (sv_cap v) o then
+    if bad t then ([], Sst (rej t) true true) else (welcome (sv_motd v), t)
+  else (answer1 v n o, t).
+Fixpoint answer_batchN (v : srv) (fr : bool) (t : sst) (choices : list N) (batch : list outev) : list inmsg * sst :=
+  match batch with
+  | [] => ([], t)
+  | o :: r => let '(r1, t1) := answerN v fr t (hd 0 choices) o in
+              let '(r2, t2) := answer_batchN v fr t1 (tl choices) r in (r1 ++ r2, t2)
+  end.
+(* one round: plan = the (0-based) rounds at whose start the server tries to reject the nick *)
+Definition roundN (v : srv) (plan : list nat) (i : nat) (t : sst) (choices : list N) (batch : list outev) : list inmsg * sst :=
+  let fr := existsb (Nat.eqb i) plan && negb (bad t) && Nat.ltb 0 (rej t) in
+  let t0 := if fr then Sst (pred (rej t)) (due t) true else t in
+  let '(rm, t') := answer_batchN v fr t0 choices batch in
+  ((if fr then rejection else []) ++ rm, t').
+(* the server state before answering the newest batch of the history (newest first), and the round number *)
+Fixpoint stateN (v : srv) (plan : list nat) (k : nat) (choices : list N) (hist : list (list outev)) : sst * nat :=
+  match hist with
+  | [] => (Sst k false false, O)
+  | b :: older =>
+      match older with
+      | [] => (Sst k false false, O)
+      | b1 :: _ =>
+          let '(t, i) := stateN v plan k choices older in
+          (snd (roundN v plan i t (skipn (length (concat (tl older))) choices) b1), S i)
+      end
+  end.
+Definition strategyN (v : srv) (plan : list nat) (k : nat) (choices : list N) (hist : list (list outev)) : list inmsg :=
+  match hist with
+  | [] => []
+  | batch :: older =>
+      let '(t, i) := stateN v plan k choices hist in
+      fst (roundN v plan i t (skipn (length (concat older)) choices) batch)
+  end.
+
 (* ---- wire ---- *)
 Definition gOS (v : value) : option str := gO gS v.
 (* the credentials arrive as the base64 strings; the chunking is the model's *)
@@ -690,12 +788,16 @@ Definition vMsg (m : inmsg) : value :=
 (* run (0 (cfg state msg)) -> (state' outputs exn)     one step from a snapshot
    run (1 (policy parseDuration)) -> () | (port)        parseStsPolicy
    run (5 (srv choices history)) -> messages             the conformant-server strategy
+   run (7 (srv plan k choices history)) -> messages      the conformant server that also rejects nicks
    run (6 string) -> chunks                              authenticate_generator(string, base64ify=False) *)
 Definition run (v : value) : value :=
   let p := nth_v 1 v in
   match gN (nth_v 0 v) with
-  | 0 => let '(s', o, e) := step (gCfg (nth_v 0 p)) (gState (nth_v 1 p)) (gMsg (nth_v 2 p)) in
-         L [vState s'; L (map vOut (filter visible o)); vExn e]
+  | 0 => let cv := nth_v 0 p in let sv := nth_v 1 p in
+         let '(s', n', o, e) := stepN (gCfg cv) (N.to_nat (gN (nth_v 11 cv))) (gState sv, Nk (N.to_nat (gN (nth_v 11 sv))) (gB (nth_v 12 sv))) (gMsg (nth_v 2 p)) in
+         L [L (gL (vState s') ++ [vN (N.of_nat (alts n')); vB (tried n')]); L (map vOut (filter visible o)); vExn e]
+  | 7 => L (map vMsg (strategyN (gSrv (nth_v 0 p)) (map (fun x => N.to_nat (gN x)) (gL (nth_v 1 p))) (N.to_nat (gN (nth_v 2 p)))
+                                (map gN (gL (nth_v 3 p))) (map (fun b => map gOut (gL b)) (gL (nth_v 4 p)))))
   | 1 => vO (fun pd => L [I (fst pd); I (snd pd)]) (parseStsPolicy2 (gS (nth_v 0 p)) (gB (nth_v 1 p)))
   | 6 => vLS (auth_gen (gS p))
   | 5 => L (map vMsg (strategy (gSrv (nth_v 0 p)) (map gN (gL (nth_v 1 p))) (map (fun b => map gOut (gL b)) (gL (nth_v 2 p)))))
